@@ -15,7 +15,7 @@ import (
 func init() {
 	register("C14", "R1", 4, "exclusive VM per evaluation: the pool's FindProxyForURL takes a resolver, evaluates on it and puts it back exactly once on every path, without storing or returning it; only pool-backed resolvers are handed to the proxy as PACResolver (a bare ProxyResolver is one VM and not safe for concurrent use)", c14r1)
 	register("C14", "R2", 4, "helper coverage: the Go-registered helper names together with the functions of the embedded JavaScript prelude contain every standard PAC helper, none defined twice; the IPv4 helper resolves with network ip4, the Ex helper with ip", c14r2)
-	register("C14", "R3", 4, "result checks: an evaluation succeeds only with a string, ASCII result; a script error is returned; a resolver is constructed only when exactly one entry point is defined, and that one is called", c14r3)
+	register("C14", "R3", 3, "result checks: an evaluation succeeds only with a string, ASCII result; a script error is returned; a resolver is constructed only when exactly one entry point is defined, and that one is called", c14r3)
 	register("C14", "R5", 3, "a result-list entry is accepted only when well-formed: parseProxy returns without error only for the empty entry, the bare word DIRECT, or keyword SP host:port with a host:port that splits - and then with that keyword's mode, host and port; everything else is an error", c14r5)
 	register("C14", "R4", 5, "result-list tables: parseMode covers every Mode constant under its own keyword with default DIRECT; the generated Mode names agree with the constant block; Proxy.URL maps DIRECT to nil and PROXY to http", c14r4)
 }
@@ -106,24 +106,45 @@ func c14r1(r *R) {
 func c14r2(r *R) {
 	rf := r.method("pac", "ProxyResolver", "registerFunctions")
 	goNames := map[string]string{}
+	// the table: elements whose fields hold a helper name (a string constant) and its implementation (a function
+	// value), whatever the element type and its fields are called
+	type entry struct{ name, impl string }
+	elems := map[ssa.Value]*entry{}
+	var order []ssa.Value
 	eachInstr(rf, func(ins ssa.Instruction) {
 		st, ok := ins.(*ssa.Store)
 		if !ok {
 			return
 		}
-		if s, ok := constString(st.Val); ok && strings.HasSuffix(describe(st.Addr), ".name") {
-			// the sibling fn field
-			base := strings.TrimSuffix(describe(st.Addr), ".name")
-			eachInstr(rf, func(j ssa.Instruction) {
-				if s2, ok := j.(*ssa.Store); ok && describe(s2.Addr) == base+".fn" && sameIndex(st.Addr, s2.Addr) {
-					goNames[s] = describe(s2.Val)
-				}
-			})
-			if _, ok := goNames[s]; !ok {
-				goNames[s] = "?"
-			}
+		fa, ok := st.Addr.(*ssa.FieldAddr)
+		if !ok {
+			return
+		}
+		if _, ok := fa.X.(*ssa.IndexAddr); !ok {
+			return
+		}
+		e := elems[fa.X]
+		if e == nil {
+			e = &entry{}
+			elems[fa.X] = e
+			order = append(order, fa.X)
+		}
+		if s, ok := constString(st.Val); ok {
+			e.name = s
+		} else if _, isFunc := st.Val.Type().Underlying().(*types.Signature); isFunc {
+			e.impl = describe(st.Val)
 		}
 	})
+	for _, k := range order {
+		e := elems[k]
+		if e.name == "" {
+			continue
+		}
+		if e.impl == "" {
+			e.impl = "?"
+		}
+		goNames[e.name] = e.impl
+	}
 	js := map[string]bool{}
 	b, err := os.ReadFile(filepath.Join(r.Repo, "pac", "ascii_pac_utils.js"))
 	if err != nil {
@@ -231,10 +252,21 @@ func c14r3(r *R) {
 	}
 	r.check(okHost, "ProxyResolver.FindProxyForURL#host-default", fp.Pos(), "empty host argument defaults to the URL's host name", "host argument is not defaulted from the URL")
 	np := r.fn("pac", "NewProxyResolver")
-	ps, _ = enumPaths(np, 4096, 2)
+	// the entry-point lookup is walked in place, whatever form it has (method, function of the VM, inline)
+	ps, _ = enumPathsInline(np, 4096, 2, func(c *ssa.Function) bool { return refName(c) == "entryPoint" })
 	why = nil
 	nOK = 0
-	const ep = "(*pac.ProxyResolver).entryPoint("
+	entryTerm := func(p *Path, name string) string {
+		suffix := `, "` + name + `"))#0`
+		for _, c := range p.Conds {
+			k, _ := normCond(c)
+			l, op, rr, ok := splitTop(k)
+			if ok && op == "==" && rr == "nil" && strings.HasPrefix(l, "github.com/dop251/goja.AssertFunction((*github.com/dop251/goja.Runtime).Get(") && strings.HasSuffix(l, suffix) {
+				return l
+			}
+		}
+		return ""
+	}
 	for _, p := range ps {
 		if p.Cut || len(p.Ret) != 2 || p.Ret[1] != "nil" {
 			continue
@@ -242,15 +274,10 @@ func c14r3(r *R) {
 		nOK++
 		pr := p.Ret[0]
 		chosen := p.Mem[pr+".fn"]
-		epc := ""
-		for _, e := range p.Events {
-			if e.Kind == "call" && strings.HasPrefix(e.Desc, ep) {
-				epc = e.Desc
-			}
-		}
-		xNil, kx := p.fact("(" + epc + "#0 == nil)")
-		fNil, kf := p.fact("(" + epc + "#1 == nil)")
-		if !kx || !kf {
+		xT, fT := entryTerm(&p, "FindProxyForURLEx"), entryTerm(&p, "FindProxyForURL")
+		xNil, kx := p.outcome("(" + xT + " == nil)")
+		fNil, kf := p.outcome("(" + fT + " == nil)")
+		if xT == "" || fT == "" || !kx || !kf {
 			why = append(why, "a resolver is constructed without both entry points having been examined")
 			continue
 		}
@@ -258,15 +285,11 @@ func c14r3(r *R) {
 		if hasX == hasF {
 			why = append(why, fmt.Sprintf("resolver constructed with FindProxyForURLEx=%v FindProxyForURL=%v (exactly one is required)", hasX, hasF))
 		}
-		if hasX && !strings.HasSuffix(chosen, "#0") || hasF && !hasX && !strings.HasSuffix(chosen, "#1") {
+		if hasX && chosen != xT || hasF && !hasX && chosen != fT {
 			why = append(why, "the entry point called is "+chosen)
 		}
 	}
-	r.check(nOK >= 2 && len(why) == 0, "NewProxyResolver#entry-point", np.Pos(), "exactly one of FindProxyForURL / FindProxyForURLEx, and that one is called", strings.Join(dedupStrings(why), "; "))
-	e := r.method("pac", "ProxyResolver", "entryPoint")
-	eps, _ := enumPaths(e, 8, 1)
-	okE := len(eps) == 1 && strings.Contains(eps[0].Ret[0], `"FindProxyForURLEx"`) && strings.Contains(eps[0].Ret[1], `"FindProxyForURL"`) && !strings.Contains(eps[0].Ret[1], `"FindProxyForURLEx"`)
-	r.check(okE, "ProxyResolver.entryPoint", e.Pos(), "looks up FindProxyForURLEx and FindProxyForURL", "entry point lookup changed")
+	r.check(nOK >= 2 && len(why) == 0, "NewProxyResolver#entry-point", np.Pos(), "exactly one of FindProxyForURL / FindProxyForURLEx (looked up by those names in the script's VM), and that one is called", strings.Join(dedupStrings(why), "; "))
 }
 
 func c14r4(r *R) {
